@@ -1,8 +1,6 @@
 (* Props/C01.v -- property C01: save then load returns the same document.
    Rung 1: theorems about the save model (Model/Save.v) that hold for EVERY document.
-   Statements only; proofs live in Proofs/SaveProofs.v.
-   (placeholder marker for tools/mkmanifest.py: removed once ./check C01 is green again -- the shared
-   translator part Lex currently fails on /repo 61b571d.) *)
+   Statements only; proofs live in Proofs/SaveProofs.v. *)
 From LV Require Import Base.Bytes Base.Sx Model.Obj Model.Writer Model.Save Proofs.SaveProofs.
 
 Local Open Scope N_scope.
